@@ -1,0 +1,13 @@
+//go:build !verif
+
+// Package verifpoint is a verification hook that compiles to nothing without the build tag `verif`.
+package verifpoint
+
+// Point is a no-op.
+func Point(name string, a, b, c int64) {}
+
+// Ptr is a no-op.
+func Ptr(p any) int64 { return 0 }
+
+// B is a no-op.
+func B(v bool) int64 { return 0 }
